@@ -179,6 +179,12 @@ fn raw_facts(cx: &Ctx, tid: i32) -> Value {
                     _ => None,
                 };
                 let mut o = json!({"v": v.id, "e": l.e, "val": val.map(|x| typed(x, v.size, v.signed)).unwrap_or_else(|| "unk".into())});
+                if l.form == "fbreg" {
+                    // the same slot offset applied to the CALLER's frame base (saved rbp): lets the specification name
+                    // the defect "frame k is read with frame k+1's registers" instead of a bare wrong value
+                    let up = probe::read_u64(cx.pid, f.rbp).and_then(|b| mem_val(cx.pid, b.wrapping_add(l.a as u64), v.size));
+                    o["up"] = json!(up.map(|x| typed(x, v.size, v.signed)).unwrap_or_else(|| "unk".into()));
+                }
                 if l.form == "reg" && k == 0 {
                     let alt: Vec<Value> = (0..16)
                         .filter(|n| *n != l.a)
